@@ -13,6 +13,7 @@ import (
 	"reflect"
 	"sort"
 	"strings"
+	"sync/atomic"
 
 	"github.com/jamf/regatta/storage/kv"
 	dbsm "github.com/lni/dragonboat/v4/statemachine"
@@ -255,6 +256,8 @@ func stepQueries(g *gen, m *CAS) []query {
 	}
 	return qs
 }
+
+var l1samples atomic.Int32 // the evidence keeps 6 samples; leave room for layers 2 and 3
 
 type pendingSnap struct {
 	ctx   interface{}
@@ -505,7 +508,7 @@ func runSeq(r *ev.Run, id caseID) {
 	if staleReject && recreate && midSnapshot {
 		r.Nontrivial(sig.String())
 	}
-	if id.Seed%97 == 0 {
+	if id.Seed%97 == 0 && l1samples.Add(1) <= 3 {
 		ops := w.Ops
 		if len(ops) > 8 {
 			ops = ops[:8]
